@@ -772,6 +772,64 @@ fn authentic_checks(rep: &mut Report, args: &Args, case: u64, world: &World) {
                 rep.violation("C05:authentic:replay-differs-from-live", &format!("tick {t}: live ({}, {:?}) vs replay ({}, {:?})", hex4(&l.state_root), l.commit_hash.map(|h| hex4(&h)), hex4(&o.state_root), o.tip_commit().map(|h| hex4(&h))), info.clone());
             }
         }
+        // Rollback windows (`checkpoint_for` .. `restore`, what a scheduler pass and a settlement
+        // wrap around their fallible section): whatever was appended AND whatever replay
+        // checkpoint was recorded inside a window that rolls back must disappear, and the
+        // untampered history must still verify after the worldline continues.
+        for k in 0..n.min(6) {
+            let Ok(mut svc) = world.rebuild(w, &list[..k as usize]) else { continue };
+            let Ok(marker) = svc.checkpoint_for([w]) else { continue };
+            let appended = if matches!(list[k as usize].event_kind, ProvenanceEventKind::LocalCommit) {
+                svc.append_local_commit(list[k as usize].clone()).is_ok()
+            } else {
+                svc.append_recorded_event(list[k as usize].clone()).is_ok()
+            };
+            if !appended {
+                continue;
+            }
+            let recorded = svc
+                .replay_worldline_state(w, world.base(w))
+                .ok()
+                .and_then(|st| svc.checkpoint(w, &st).ok());
+            svc.restore(&marker);
+            rep.eval();
+            rep.count("rollback_windows", 1);
+            if recorded.is_some() {
+                rep.count("rollback_windows_with_checkpoint_inside", 1);
+            }
+            let len_after = svc.len(w).unwrap_or(u64::MAX);
+            if len_after != k {
+                rep.violation("C05:rollback-window:entries-survive", &format!("restore left {len_after} entries, the window opened at {k}"), info.clone());
+            }
+            if let Some(c) = svc.checkpoint_before(w, warp_core::WorldlineTick::MAX) {
+                if c.worldline_tick.as_u64() > k {
+                    rep.violation("C05:rollback-window:checkpoint-survives-past-restored-tip",
+                        &format!("a replay checkpoint at tick {} recorded inside a rolled-back window is still retained although the worldline was restored to {k} entries", c.worldline_tick.as_u64()), info.clone());
+                }
+            }
+            // the worldline continues; everything must still verify exactly as the original
+            let mut ok = true;
+            for e in &list[k as usize..] {
+                let r = if matches!(e.event_kind, ProvenanceEventKind::LocalCommit) { svc.append_local_commit(e.clone()) } else { svc.append_recorded_event(e.clone()) };
+                if let Err(err) = r {
+                    rep.violation("C05:rollback-window:authentic-append-rejected", &format!("after a rolled-back window at {k}: {err:?}"), info.clone());
+                    ok = false;
+                    break;
+                }
+            }
+            if ok {
+                for t in 0..=n {
+                    match svc.replay_worldline_state_at(w, world.base(w), wt(t)) {
+                        Ok(st) => {
+                            if t > 0 && st.state_root() != list[(t - 1) as usize].expected.state_root {
+                                rep.violation("C05:rollback-window:authentic-replay-differs", &format!("after a rolled-back window at {k}, replay at {t} has another state root"), info.clone());
+                            }
+                        }
+                        Err(e) => rep.violation("C05:rollback-window:authentic-rejected", &format!("after a rolled-back window at {k}, untampered history fails to replay at {t}: {e:?}"), info.clone()),
+                    }
+                }
+            }
+        }
         if n > 0 {
             match world.ck.build_btr(w, wt(0), wt(n), 1, vec![1, 2, 3]) {
                 Ok(r) => {
